@@ -125,6 +125,24 @@ EXTRA = {
     "C20": "self-alias iteration (ALIAS:iterates-argument), size statistics over the members' own properties with multi-definition selections (STAT)",
 }
 
+# rule families added in round 6 / batch 5
+EXTRA2 = {
+    'C01': "surface-distance and symmetry of the duplicate filter's distance matrix (SURFACE, SYMM)", 'C04': 'levels defined for an empty fit region (LEVELS:empty-region), feasibility for both signs of the intensity range (FEASIBLE, min/max resolved per case)',
+    'C06': 'INDEX violation when the link indices do not come from the arg-min',
+    'C08': 'pair iteration of items(), full-dtype layout comparison',
+    'C09': 'histogram totality (TOTAL:histogram), INDEX of the distance matcher, on-axis constraint (DIMGUARD:on-axis)',
+    'C10': 'surface-minimum rule of the neighbour distances (known finding), index swaps followed in the tie-break',
+    'C12': 'closed-form rule (no rounding / table between argument and result), scalar-only function rule (ARG:array)',
+    'C13': 'first-order volume (COEFF:first-order), ORIGIN sequence, DERIV over fissioned loops',
+    'C14': 'instance containers (OWN), pair iteration, NaN-initialised TRYGUARD',
+    'C15': 'failure-propagates, independent-items, EFFECT with aliases on the shared image/grid',
+    'C16': 'working-array dtype (DTYPE), kernel-width obligation per conditional alternative',
+    'C17': 'working-array dtype (DTYPE)',
+    'C18': 'range-point fallback of the otsu rule (THRESH:fallback), extrema combined as floats (THRESH:dtype), late-binding closures (LATEBIND)',
+    'C19': 'boundary-value mode counts, isinstance on request values, hoisted / comprehension class selection',
+    'C20': 'instance containers (OWN:own-container), weighted-mean guard (STAT:weighted-mean)',
+}
+
 
 def main():
     checks = []
@@ -140,7 +158,7 @@ def main():
             "engine": "dropstat",
             "level_claimed": {"category": "other", "text": d["text"], "design_ref": d["ref"]},
             "level_note": d["note"],
-            "technique": d["technique"] + ("; " + EXTRA[pid] if pid in EXTRA else ""),
+            "technique": d["technique"] + ("; " + EXTRA[pid] if pid in EXTRA else "") + ("; " + EXTRA2[pid] if pid in EXTRA2 else ""),
         })
     na = list(NOT_APPLICABLE)
     claimed = {c["property_id"] for c in checks}
